@@ -135,6 +135,18 @@ class Rec(CallbackBase):
         self._ev(nn_state, "BE", epoch, batch)
 
 
+def as_lambda(rec):
+    """The same recording callback, built with the library's LambdaCallback (hooks installed as
+    instance attributes) instead of subclassing CallbackBase."""
+    from qucumber.callbacks import LambdaCallback
+    return LambdaCallback(on_train_start=lambda nn: rec.on_train_start(nn),
+                          on_train_end=lambda nn: rec.on_train_end(nn),
+                          on_epoch_start=lambda nn, ep: rec.on_epoch_start(nn, ep),
+                          on_epoch_end=lambda nn, ep: rec.on_epoch_end(nn, ep),
+                          on_batch_start=lambda nn, ep, b: rec.on_batch_start(nn, ep, b),
+                          on_batch_end=lambda nn, ep, b: rec.on_batch_end(nn, ep, b))
+
+
 class EpochTracker(CallbackBase):
     """Placed first in the list so scripted metrics know the current epoch; records nothing."""
 
@@ -353,7 +365,10 @@ def build_callbacks(cfg, R, plan, nn_state, tmpdir):
         t = d["t"]
         slot = _Slot(i)
         if t == "rec":
-            slot.append(Rec(R, i, plan))
+            r = Rec(R, i, plan)
+            R.recs.append(r)
+            # both ways of writing a user callback: a CallbackBase subclass or a LambdaCallback
+            slot.append(as_lambda(r) if d.get("lam", (i + R.lam_parity) % 2 == 0) else r)
         elif t == "eval":
             kind = d.get("kind", "metric")
             if kind == "metric":
@@ -434,6 +449,8 @@ def real_run(cfg, plan=(), seed=0, k=1, lr=0.05, numeric_hook=None, time_flag=Fa
         R.loglines = []
         R.logged = {}
         R.saved = {}
+        R.recs = []
+        R.lam_parity = seed % 2
     R.start_ep = cfg["startEp"]
     R.numeric_hook = numeric_hook
     data_rows = [row_bits(c, nv) for c in cfg["data"]]
@@ -455,9 +472,8 @@ def real_run(cfg, plan=(), seed=0, k=1, lr=0.05, numeric_hook=None, time_flag=Fa
     try:
         if prev is not None:
             cbs = prev["objs"]
-            for o in cbs:
-                if isinstance(o, Rec):
-                    o.plan = set(plan)
+            for o in R.recs:
+                o.plan = set(plan)
         else:
             cbs = build_callbacks(cfg, R, set(plan), nn_state, tmpdir)
         saves = []
